@@ -538,6 +538,10 @@ pub struct Cluster {
     pub late_ticks: u32,
     /// every node binds to 0.0.0.0:<port> and is known to its peers by another (external) address
     pub bind_differs: bool,
+    /// links (from node, to node) whose sending end does not take anything from its queue for the time being: the
+    /// peer is busy or paused, the socket's buffers are full. What the node queues for that peer stays in the
+    /// member's channel inside nun-db
+    pub stalled: std::collections::BTreeSet<(usize, usize)>,
 }
 
 #[derive(Debug, Clone, PartialEq)]
@@ -560,7 +564,7 @@ impl Cluster {
                 g.nodes.push(SimNode { node: None, dbs: None, addr: format!("10.0.0.{}:3014", i + 1), dir, alive: false, process_id: 0, repl_q: VecDeque::new(), sup_q: VecDeque::new(), starts: 0 });
             }
         }
-        Cluster { sim, rng: Rng::new(seed), base_dir, sessions: BTreeMap::new(), budget: 6000, max_quiet_steps: 0, max_early_ticks: 4, late_eof: std::collections::BTreeSet::new(), late_ticks: 0, bind_differs: seed % 3 == 2 && std::env::var("VERIF_NO_BIND_VARIANT").is_err() }
+        Cluster { sim, rng: Rng::new(seed), base_dir, sessions: BTreeMap::new(), budget: 6000, max_quiet_steps: 0, max_early_ticks: 4, late_eof: std::collections::BTreeSet::new(), late_ticks: 0, bind_differs: seed % 3 == 2 && std::env::var("VERIF_NO_BIND_VARIANT").is_err(), stalled: std::collections::BTreeSet::new() }
     }
 
     pub fn n(&self) -> usize {
@@ -793,6 +797,9 @@ impl Cluster {
             }
         }
         for l in inner.links.iter_mut() {
+            if self.stalled.contains(&(l.from, l.to)) {
+                continue;
+            }
             if let Some(rx) = l.cmd_rx.as_mut() {
                 loop {
                     match rx.try_next() {
